@@ -49,7 +49,7 @@ def catalog():
             setup += [["run", "ex", 0]]
         out["race/" + inner] = {"inner": inner, "prog": {
             "setup": setup,
-            "threads": [[["shutdown", "ex", True]], [sub("s0"), sub("s1")], [sub("s2")]],
+            "threads": [[["shutdown", "ex", True], ["shutdown", "ex", True]], [sub("s0"), sub("s1")], [sub("s2")]],
             "settle": 1, "final": [["open", "g"], ["sleep", 1]]}}
         out["race-nowait/" + inner] = {"inner": inner, "prog": {
             "setup": setup,
@@ -73,12 +73,16 @@ def evaluate(case):
         return viols, info
     h = world.History(s, w)
     ops = h.oplist()
-    sd = [o for o in ops if o["op"][0] == "shutdown" and o["op"][1] == "ex"]
-    if len(sd) != 1 or sd[0]["result"][0] != "ok":
-        if sd and sd[0]["result"][0] != "ok":
-            bad("shutdown-raised:%s" % sd[0]["result"][1], result=sd[0]["result"])
+    sds = [o for o in ops if o["op"][0] == "shutdown" and o["op"][1] == "ex"]
+    if not sds or any(o["result"][0] != "ok" for o in sds):
+        for o in sds:
+            if o["result"][0] != "ok":
+                bad("shutdown-raised:%s" % o["result"][1], result=o["result"])
         return viols, info
-    sd = sd[0]
+    sd = min(sds, key=lambda o: o["call_seq"])  # the first shutdown(); later ones (same thread) must be harmless
+
+    def in_shutdown(seq, thread):
+        return any(o["thread"] == thread and o["call_seq"] < seq < o["ret_seq"] for o in sds)
     ids = dict((id(f), n) for n, f in w.futs.items())
     cancels = {}
     for ev in s.events:
@@ -115,11 +119,11 @@ def evaluate(case):
             bad("submit-accepted-after-shutdown-returned", op=o["op"][:3])
             continue
         # the future actually returned by cos is the delegate's future; the harness stored it under `name`
-        mine = [c for c in cancels.get(name, []) if c[1] == sd["thread"] and sd["call_seq"] < c[0] < sd["ret_seq"]]
+        mine = [c for c in cancels.get(name, []) if in_shutdown(c[0], c[1])]
         fut_aliases = [n for n, f in w.futs.items() if f is w.futs[name]]
         for n in fut_aliases:
             if n != name:
-                mine += [c for c in cancels.get(n, []) if c[1] == sd["thread"] and sd["call_seq"] < c[0] < sd["ret_seq"] and c not in mine]
+                mine += [c for c in cancels.get(n, []) if in_shutdown(c[0], c[1]) and c not in mine]
         d = done_seq.get(name)
         done_before_return = d is not None and d < sd["ret_seq"]
         done_before_call = d is not None and d < sd["call_seq"]
@@ -200,6 +204,8 @@ def case_strategy():
         if d:
             threads[0].append(["sleep", d])
         threads[0].append(["shutdown", "ex", draw(st.booleans())])
+        if draw(st.integers(0, 2)) == 0:
+            threads[0].append(["shutdown", "ex", draw(st.booleans())])
         k = 0
         for t in range(nsub):
             ops = []
